@@ -54,6 +54,35 @@ def run(ctx):
     for s in sums:
         for dv in (s.get("diverged") or [])[:1]:
             ctx.notes.append("seed %d diverged at h=%s on %s (%s)" % (s["seed"], dv["h"], dv["replica"], dv["path"]))
+    if not q:
+        # race-detector build of the harness: the same concurrent schedules (CheckTx / EstimateGas / queries during block execution,
+        # restarts) under Go's race detector.  A reported race is an OBSERVATION (the property speaks about results, which the
+        # traces below decide); locations inside oasis-core are listed in the evidence file.
+        import glob
+        import re
+        import subprocess
+        rb = subprocess.run([os.path.join(vlib.VERIF, "lib", "build.sh")], env=dict(os.environ, RACE="1"), capture_output=True, text=True)
+        vr = os.path.join(vlib.VERIF, ".build", "vh-race")
+        if rb.returncode != 0 or not os.path.exists(vr):
+            ctx.notes.append("race-detector build failed: %s" % rb.stderr[-300:])
+        else:
+            logp = ctx.path("race")
+            lr, sr = cc.run_scenarios(ctx, [ctx.seed * 1000 + 800 + i for i in range(6)], 150, extra=["-schedule", sched], vh=vr,
+                                      env={"GORACE": "halt_on_error=0 log_path=%s" % logp})
+            l5, s5 = cc.run_scenarios(ctx, [ctx.seed * 1000 + 850 + i for i in range(4)], 150, extra=["-schedule", sched] + cc.VRF, vh=vr,
+                                      env={"GORACE": "halt_on_error=0 log_path=%s" % logp})
+            lines += lr + l5
+            sums += sr + s5
+            locs = {}
+            for f in glob.glob(logp + ".*"):
+                txt = open(f, errors="replace").read()
+                for blk in txt.split("WARNING: DATA RACE")[1:]:
+                    fr = [m for m in re.findall(r"\n  (github.com/oasisprotocol/oasis-core/go/[^\n]+)\n", blk)][:2]
+                    key = " <-> ".join(sorted(set(fr))) or "outside oasis-core"
+                    locs[key] = locs.get(key, 0) + 1
+            for k, v in sorted(locs.items())[:8]:
+                print("OBSERVATION property=C01 data race reported by the Go race detector (%d reports): %s" % (v, k[:300]), flush=True)
+            ctx.coverage.update(race_detector_scenarios=len(sr) + len(s5), race_reports=locs)
     rej, nv, nev = cc.validate(ctx, lines, "TraceReplica", "tracereplica_c01.cfg")
     for seg in rej:
         vlib.report(ctx, "replicas disagree: %s at %s" % (seg["why"], seg["failing_event"][:600]),
